@@ -277,8 +277,8 @@ def run(ctx: Ctx) -> None:
     root = os.path.join(ctx.tmp, "search")
     os.makedirs(root, exist_ok=True)
     rng = ctx.rng
-    npk_full = ctx.pick(9, 60)
-    npk_insp = ctx.pick(4, 24)
+    npk_full = ctx.pick(12, 150)
+    npk_insp = ctx.pick(5, 50)
     nm = 5
     sets: list[tuple[str, dict, dict, list[str], tuple[str, ...]]] = []
     files: dict[str, str] = {}
